@@ -26,6 +26,7 @@ SEPS = [b'\n', b'\n\n', b' # c\n', b' // c\n', b' /* c */ ', b' /* a\nb */ ', b'
 # and the scanner drops it like a blank - the reference scanner does the same here so that the line count can be compared
 import reflex
 reflex.CR_IS_BLANK = True
+QUICK_FULL_SEPS = os.environ.get('VERIF_TIER', 'quick') != 'quick'
 BATCH = 300
 
 
@@ -94,6 +95,12 @@ def judge(st, sid, sch, case, res, m, fname, label):
     st.outcome('%s %d %s' % (rc, len(diags), diags[-1].split(' ')[2] if diags else ''))
     if m.verdict == UNSPEC:
         st.unspec += 1
+        # whether such a text is accepted is not said anywhere - but whichever way the library decides, the two halves of the
+        # statement that need no verdict still bind: a failed parse has delivered a diagnostic, an accepted one has not
+        if rc is not None and rc.endswith(' 1') and not diags:
+            st.violation('rejected-without-diagnostic:unspecified-text', script, 'at least one diagnostic for a parse that returns the error code', 'none')
+        elif rc is not None and rc.endswith(' 0') and diags and not has_deprecated(sch):
+            st.violation('diagnostic-on-accepted-parse:unspecified-text', script, 'no diagnostic for an accepted parse', '\n'.join(diags))
         return
     st.validated += 1
     if m.verdict == ACCEPT:
@@ -179,7 +186,8 @@ def shard_layout(shard):
             if dev == 0:
                 combos = [()]
             elif dev == 1:
-                combos = [((p, s),) for p in range(k + 1) for s in range(len(SEPS))]
+                one = range(len(SEPS)) if N <= 4 or QUICK_FULL_SEPS else range(7)      # quick tier: the CR LF separators at N <= 4, the LF-based ones deeper
+                combos = [((p, s),) for p in range(k + 1) for s in one]
             else:
                 two = range(7)        # pairs of deviations: the seven LF-based separators (the CR LF ones are covered singly)
                 combos = [((p, s), (q, t)) for p in range(k + 1) for q in range(p + 1, k + 1) for s in two for t in two]
